@@ -393,7 +393,7 @@ fn active_preamble() -> String {
 const PREAMBLE: &str = "\\let\\Xiftrue=\\iftrue \\let\\Xiffalse=\\iffalse \\let\\Xifodd=\\ifodd \\let\\Xifnum=\\ifnum \
 \\let\\Xifcase=\\ifcase \\let\\Xelse=\\else \\let\\Xor=\\or \\let\\Xfi=\\fi \
 \\def\\mA{Q}\\def\\mB{RS}\\def\\mC{}\\def\\mD{\\Xiftrue T\\Xelse U\\Xfi}\
-\\def\\mE{V}\\def\\mF{W}\\def\\mG{X}\\def\\mH{Y}\\def\\mI{Z}";
+\\def\\mE{V}\\def\\mF{W}\\def\\mG{X}\\def\\mH{Y}\\def\\mI{Z}\\def\\mS{ }";
 const REDEFINE: &str = "\\def\\else{V}\\def\\fi{W}\\def\\or{X}\\def\\iftrue{Y}\\def\\ifcase{Z}";
 
 fn set_reg(reg: i64, n: i64, s: &mut String) {
@@ -493,45 +493,126 @@ impl DynState {
     }
 }
 
-/// For every token of `flatten(items)`, in the same order: is it in text the specification
-/// delivers (executed by the main loop) or in skipped text?
+/// For every token of `flatten(items)`, in the same order: is it reached by the main loop
+/// (delivered / executed by `next_expanded`), as opposed to being read raw by a skipping loop?
+/// Plain tokens: in text the specification selects. Structural tokens: an `\else`/`\or`/`\fi`
+/// that ends a *skipped* stretch is consumed by the loop that skipped it, not executed.
 fn flatten_status(items: &[Item], delivered: bool, out: &mut Vec<bool>) {
     for it in items {
         match it {
             Item::Plain(_) => out.push(delivered),
             Item::IfThen(t, a, _) => {
+                let h = test_holds(t);
                 out.push(delivered);
-                flatten_status(a, delivered && test_holds(t), out);
-                out.push(delivered);
+                flatten_status(a, delivered && h, out);
+                out.push(delivered && h);
             }
             Item::IfElse(t, a, _, b, _) => {
+                let h = test_holds(t);
                 out.push(delivered);
-                flatten_status(a, delivered && test_holds(t), out);
-                out.push(delivered);
-                flatten_status(b, delivered && !test_holds(t), out);
-                out.push(delivered);
+                flatten_status(a, delivered && h, out);
+                out.push(delivered && h);
+                flatten_status(b, delivered && !h, out);
+                out.push(delivered && !h);
             }
             Item::Case(t, brs, els, _) => {
                 out.push(delivered);
                 let n = t.ops[0];
+                let last = brs.len() - 1;
+                let sel = if n >= 0 && (n as usize) < brs.len() { Some(n as usize) } else { None };
                 for (i, (b, _)) in brs.iter().enumerate() {
-                    flatten_status(b, delivered && n == i as i64, out);
-                    if i + 1 != brs.len() {
-                        out.push(delivered);
+                    flatten_status(b, delivered && sel == Some(i), out);
+                    if i != last {
+                        out.push(delivered && sel == Some(i));
                     }
                 }
                 if let Some((_, e)) = els {
-                    out.push(delivered);
-                    flatten_status(e, delivered && (n < 0 || n >= brs.len() as i64), out);
+                    out.push(delivered && sel == Some(last));
+                    flatten_status(e, delivered && sel.is_none(), out);
                 }
-                out.push(delivered);
+                out.push(delivered && ((sel == Some(last) && els.is_none()) || (sel.is_none() && els.is_some())));
             }
         }
     }
 }
 
+thread_local! {
+    /// Seed of the macro wrapping of the current case (`cond+17 …`), 0 = none. Set by `run_case`.
+    static WRAP: std::cell::Cell<u64> = const { std::cell::Cell::new(0) };
+    static WRAP_TAGS: std::cell::RefCell<Vec<String>> = const { std::cell::RefCell::new(Vec::new()) };
+    /// Per flat token of the current `cond*` case: is it in text the specification delivers?
+    static DELIVERED: std::cell::RefCell<Vec<bool>> = const { std::cell::RefCell::new(Vec::new()) };
+}
+
 fn render(fl: &[Flat], redefine: bool) -> String {
     render_full(fl, None, redefine, &mut vec![])
+}
+
+/// Move up to three random token ranges of the program into macro bodies (`\def\wA{…}` in the
+/// preamble, `\wA` at the place) or through a macro argument (`\wI{…}` with `\def\wI#1{#1}`), so
+/// that conditionals, skipped text and operands reach the code from the expansion stack and
+/// across macro boundaries instead of straight from the file. A range must START in delivered
+/// text (macros are not expanded while skipping, so a macro call in skipped text would hide its
+/// contents from the skipping loop — in TeX as well); from there it is arbitrary: it may run into
+/// skipped text and cut conditionals in pieces. Only the braces inside must balance (`\def`).
+fn wrap_in_macros(src: &str, marks: &[usize], fl: &[Flat], seed: u64) -> String {
+    let n = marks.len();
+    let mut bounds = marks.to_vec();
+    bounds.push(src.len());
+    let balanced = |t: &str| {
+        let mut d = 0i64;
+        for c in t.chars() {
+            match c {
+                '{' => d += 1,
+                '}' => {
+                    d -= 1;
+                    if d < 0 {
+                        return false;
+                    }
+                }
+                _ => {}
+            }
+        }
+        d == 0
+    };
+    let mut rng = Rng::new(seed);
+    let mut defs = String::from("\\def\\wI#1{#1}");
+    let mut body = String::new();
+    let (mut i, mut k) = (0usize, 0u8);
+    let mut tags = vec![];
+    while i < n {
+        let starts_delivered = DELIVERED.with(|d| d.borrow().get(i).copied().unwrap_or(false));
+        if k < 3 && starts_delivered && rng.chance(3, n as u64 / 2 + 3) {
+            let len = 1 + rng.below((n - i).min(14) as u64) as usize;
+            let text = &src[bounds[i]..bounds[i + len]];
+            if balanced(text) {
+                let nest = fl[i..i + len].iter().fold((0i64, false), |(d, neg), f| match f {
+                    Flat::If(_) => (d + 1, neg),
+                    Flat::Fi(_) => (d - 1, neg || d - 1 < 0),
+                    _ => (d, neg),
+                });
+                if nest.0 != 0 || nest.1 {
+                    tags.push("wrap:range cuts a conditional in pieces".to_string());
+                }
+                if rng.chance(1, 2) {
+                    let name = format!("\\w{}", (b'A' + k) as char);
+                    defs.push_str(&format!("\\def{name}{{{text}}}"));
+                    body.push_str(&format!("{name} "));
+                    tags.push("wrap:macro body".to_string());
+                } else {
+                    body.push_str(&format!("\\wI{{{text}}}"));
+                    tags.push("wrap:macro argument".to_string());
+                }
+                k += 1;
+                i += len;
+                continue;
+            }
+        }
+        body.push_str(&src[bounds[i]..bounds[i + 1]]);
+        i += 1;
+    }
+    WRAP_TAGS.with(|t| t.borrow_mut().extend(tags));
+    format!("{}{defs}{body}", &src[..bounds[0]])
 }
 
 /// `status` = `Some(delivered flag per token)` switches the scoped alias histories on (`condS`):
@@ -584,7 +665,9 @@ fn render_full(fl: &[Flat], status: Option<&[bool]>, redefine: bool, tags: &mut 
             format!("\\{base}")
         }
     }
+    let mut marks = Vec::with_capacity(fl.len());
     for (i, f) in fl.iter().enumerate() {
+        marks.push(s.len());
         let delivered = status.map(|st| st[i]).unwrap_or(false);
         match f {
             Flat::Plain(p) => match *p {
@@ -653,7 +736,20 @@ fn render_full(fl: &[Flat], status: Option<&[bool]>, redefine: bool, tags: &mut 
                 s.push(' ');
             }
             Flat::If(t) => {
-                let reg = t.sty != 0 || t.ops.iter().any(|n| *n == I32_MIN);
+                // operand style: 0 decimal + terminating space, 1 \count register, 2 decimal with
+                // NO terminating space (the next token ends the number), 3 hexadecimal, 4 octal,
+                // 5 decimal with spaces that come out of a macro around the relation / before the number
+                let reg = t.sty == 1 || t.ops.iter().any(|n| *n == I32_MIN);
+                let num = |n: i64| -> String {
+                    let sign = if n < 0 { "-" } else { "" };
+                    match t.sty {
+                        3 if !scoped => format!("{sign}\"{:X}", n.abs()),
+                        4 if !scoped => format!("{sign}'{:o}", n.abs()),
+                        _ => n.to_string(),
+                    }
+                };
+                let term = if t.sty == 2 { "" } else { " " };
+                let lead = if t.sty == 5 { "\\mS \\mS " } else { " " };
                 match t.kind {
                     0 => {
                         s.push_str(&name("iftrue", t.al, true, redefine, scoped, &dy, i, tags));
@@ -671,7 +767,7 @@ fn render_full(fl: &[Flat], status: Option<&[bool]>, redefine: bool, tags: &mut 
                             s.push_str("\\count1 ");
                         } else {
                             s.push_str(&name(base, t.al, forced, redefine, scoped, &dy, i, tags));
-                            s.push_str(&format!(" {} ", t.ops[0]));
+                            s.push_str(&format!("{lead}{}{term}", num(t.ops[0])));
                         }
                     }
                     _ => {
@@ -683,12 +779,20 @@ fn render_full(fl: &[Flat], status: Option<&[bool]>, redefine: bool, tags: &mut 
                             s.push_str(&format!("\\count1 {rel}\\count2 "));
                         } else {
                             s.push_str(&name("ifnum", t.al, false, redefine, scoped, &dy, i, tags));
-                            s.push_str(&format!(" {}{rel}{} ", t.ops[0], t.ops[2]));
+                            if t.sty == 5 {
+                                s.push_str(&format!(" {}\\mS \\mS {rel}\\mS {} ", t.ops[0], t.ops[2]));
+                            } else {
+                                s.push_str(&format!(" {}{rel}{}{term}", num(t.ops[0]), num(t.ops[2])));
+                            }
                         }
                     }
                 }
             }
         }
+    }
+    let wrap = WRAP.with(|w| w.get());
+    if wrap != 0 && !marks.is_empty() {
+        s = wrap_in_macros(&s, &marks, fl, wrap);
     }
     s.push('%');
     s
@@ -763,6 +867,10 @@ struct Gen<'a> {
     budget: i64,
     /// `condS`: emit scoped alias operations, sprinkled names and dynamic alias flags
     scoped: bool,
+    /// allow operands without a terminating space (known finding C07-i makes every such case
+    /// that has one directly before \else/\or/\fi on the executed path fail; a quarter of the
+    /// cases is enough)
+    unterminated: bool,
 }
 
 const OPERANDS: &[i64] = &[I32_MIN, I32_MIN + 1, -3, -2, -1, 0, 1, 2, 3, 4, 5, 7, 100, 255, I32_MAX - 1, I32_MAX];
@@ -777,6 +885,23 @@ impl<'a> Gen<'a> {
     }
     /// How a conditional token is written: 0 primitive name, 1 control-sequence alias,
     /// 2 / 3 active-character alias (two sets of characters).
+    /// How the operands of a condition are written (see `render_full`).
+    fn style(&mut self) -> i64 {
+        match self.rng.below(16) {
+            0..=7 => 0,
+            8..=10 => 1,
+            11 | 12 => {
+                if self.unterminated {
+                    2
+                } else {
+                    0
+                }
+            }
+            13 => 3,
+            14 => 4,
+            _ => 5,
+        }
+    }
     fn flag(&mut self) -> i64 {
         if self.scoped && self.rng.chance(1, 2) {
             return 4; // through a name that currently carries the class (`condS`)
@@ -799,7 +924,7 @@ impl<'a> Gen<'a> {
             }
             _ => vec![],
         };
-        TestR { kind, al: self.flag(), sty: self.rng.chance(1, 4) as i64, ops }
+        TestR { kind, al: self.flag(), sty: self.style(), ops }
     }
     /// A scoped alias operation (any name, any meaning, local or global).
     fn dyn_op(&mut self) -> i64 {
@@ -897,7 +1022,7 @@ impl<'a> Gen<'a> {
                 0 => *self.rng.pick(&[I32_MIN, -3, -1, I32_MAX, nbr as i64, nbr as i64 + 1]),
                 _ => self.rng.range(-1, nbr as i64),
             };
-            let t = TestR { kind: 4, al: self.flag(), sty: self.rng.chance(1, 4) as i64, ops: vec![n] };
+            let t = TestR { kind: 4, al: self.flag(), sty: self.style(), ops: vec![n] };
             let has_else = self.rng.chance(1, 2);
             let deep = self.rng.below(nbr as u64 + has_else as u64) as usize;
             let mut brs = vec![];
@@ -1568,11 +1693,11 @@ struct C07;
 impl C07 {
     fn classify_panic(p: &str) -> String {
         if p.contains("conditional.rs") && p.contains("subtract with overflow") {
-            // `cases_left_to_skip -= 1` in if_case_primitive_fn
-            "ifcase counter overflow panic".into()
+            // e.g. `cases_left_to_skip -= 1` in if_case_primitive_fn (C09-f, fixed)
+            "overflow panic in conditional.rs (subtract)".into()
         } else if p.contains("conditional.rs") && p.contains("add with overflow") {
-            // `total_cases_to_skip + 1 - cases_left_to_skip` in IfCaseEndOfInputError::notes
-            "ifcase end-of-input note overflow panic".into()
+            // e.g. `total_cases_to_skip + 1 - cases_left_to_skip` in IfCaseEndOfInputError::notes (C07-g, fixed)
+            "overflow panic in conditional.rs (add)".into()
         } else {
             format!("panic {}", strip_msg(p))
         }
@@ -1597,8 +1722,8 @@ impl C07 {
                     if t.al != 0 {
                         out.tag("cond:alias-if");
                     }
-                    if t.sty != 0 {
-                        out.tag("cond:register-operand");
+                    if t.kind >= 2 {
+                        out.tag(["cond:operand decimal+space", "cond:register-operand", "cond:operand without terminator", "cond:operand hexadecimal", "cond:operand octal", "cond:operand with macro spaces"][t.sty.clamp(0, 5) as usize]);
                     }
                     if t.kind == 2 && t.ops[0] < 0 && t.ops[0] % 2 != 0 {
                         out.tag("cond:ifodd-negative-odd");
@@ -1637,10 +1762,15 @@ impl C07 {
         if matches!(s, Real::Err(_)) {
             out.tag("cond:selected-text-has-unbalanced-braces");
         }
-        let src = if scoped {
+        {
             let mut status = vec![];
             flatten_status(&items, true, &mut status);
             assert_eq!(status.len(), fl.len());
+            DELIVERED.with(|d| *d.borrow_mut() = status);
+        }
+        let src = if scoped {
+            let mut status = vec![];
+            flatten_status(&items, true, &mut status);
             let mut tags = vec![];
             let src = render_full(&fl, Some(&status), false, &mut tags);
             out.tag("cond:scoped-alias-history");
@@ -1665,7 +1795,21 @@ impl C07 {
             match &i {
                 Real::Panic(p) => out.fail(Kind::ImplPanic, "cond", Self::classify_panic(p), format!("{detail}\npanic: {p}")),
                 _ => {
-                    let sig = if i == s_pre && s_pre != s {
+                    // does the same program with terminated operands behave? then the defect is the
+                    // missing \relax insertion (TeX.2021.510) and nothing else
+                    let terminated_ok = terminate_operands(&fl).is_some_and(|fl2| {
+                        let src2 = if scoped {
+                            let mut status = vec![];
+                            flatten_status(&items, true, &mut status);
+                            render_full(&fl2, Some(&status), false, &mut vec![])
+                        } else {
+                            render(&fl2, redefine)
+                        };
+                        run_tex(&src2, false).0 == s
+                    });
+                    let sig = if terminated_ok {
+                        SIG_UNTERMINATED.to_string()
+                    } else if i == s_pre && s_pre != s {
                         "ifodd: negative odd operand treated as even".to_string()
                     } else {
                         match &i {
@@ -1719,7 +1863,9 @@ impl C07 {
                         Real::Err(e) => e.clone(),
                         Real::Panic(_) => "panic".into(),
                     };
-                    if i == m_pre {
+                    if terminate_operands(&fl).is_some_and(|fl2| run_tex(&render(&fl2, redefine), false).0 == m) {
+                        out.fail(Kind::ImplVsModel, "tok", SIG_UNTERMINATED, detail)
+                    } else if i == m_pre {
                         // the code behaves exactly like the model with the pre-fix `(n % 2) == 1`
                         out.fail(Kind::ImplVsModel, "tok", "ifodd: negative odd operand treated as even", detail)
                     } else {
@@ -1844,6 +1990,25 @@ impl C07 {
     }
 }
 
+/// The same tokens with every unterminated operand (style 2) written with its terminating space.
+fn terminate_operands(fl: &[Flat]) -> Option<Vec<Flat>> {
+    let mut any = false;
+    let v = fl
+        .iter()
+        .map(|f| match f {
+            Flat::If(t) if t.sty == 2 => {
+                any = true;
+                let mut t = t.clone();
+                t.sty = 0;
+                Flat::If(t)
+            }
+            f => f.clone(),
+        })
+        .collect();
+    any.then_some(v)
+}
+const SIG_UNTERMINATED: &str = "number operand directly followed by \\else/\\or/\\fi: no \\relax is inserted";
+
 fn single(t: TestR, a: i64, b: i64) -> String {
     let it = Item::IfElse(t, vec![Item::Plain(a)], 0, vec![Item::Plain(b)], 0);
     let mut v = vec![];
@@ -1862,6 +2027,8 @@ impl Property for C07 {
          tok: every token list of length <= 3 (quick) / 4 (thorough) over {iftrue,iffalse,ifcase 0/1/2,else,or,fi,a,{,}} and random mutations (drop/insert/swap) of flattened trees; \
          every conditional token is written as the primitive, a control-sequence \\let alias or one of two active characters (\\catcode 13, 16 in all) \\let to it, in selected and skipped text at every depth; three more active characters (\\let to \\fi then redefined as a macro, \\let to \\relax, \\let to a letter) are plain tokens that must not count; \
          condS (half as many again): the same trees with scoped alias histories — before the tree and inside selected text, random `{`, `}`, local and \\global \\let/\\def that move ten names (3 control sequences, 2 active characters, the primitive names \\else \\fi \\or \\iftrue \\ifodd) between the eight conditional meanings, an empty macro and \\relax; the harness tracks the current meaning of every name with TeX's grouping, writes conditional tokens through names that currently carry the meaning (static aliases when the primitive's own name is reassigned) and sprinkles names that currently carry no class into selected and skipped text; \
+         operands are written as decimal + space, \\count register, decimal WITHOUT terminating space (a quarter of the cases; known finding C07-i), hexadecimal, octal, or with spaces produced by a macro around the relation / before the number; \
+         a third of the cond/condR/condS cases (`cond+<seed>`) moves up to three random token ranges that start in executed text into macro bodies or through a macro argument (they may run into skipped text and cut conditionals in pieces); \
          xa: random streams of 0..24 tokens over \\expandafter, two \\let aliases of it, \\noexpand, 0..4 macros with 0..2 parameters (terminating by construction), \\iftrue, \\fi, \\relax, letters; both EOF positions; \
          xah (3/5 of the xa budget): the same after a random VM history of 1..10 operations (\\toks assignments and overwrites of 0..200 tokens, local and \\global, groups that save/restore them, \\the\\toks, macro calls without/with one braced/with two arguments, \\def with long bodies, nested conditionals, \\expandafter chains) whose own output the harness predicts. \
          Non-trivial = tree depth >= 1 (cond), at least one conditional token (tok), at least one \\expandafter or \\noexpand (xa); distinct = distinct case string."
@@ -1945,6 +2112,29 @@ impl Property for C07 {
                 v.push(format!("condR {}", join(&e)));
             }
         }
+        // operand styles: unterminated before \else / \fi / \or (C07-i), hexadecimal, octal, macro spaces
+        for sty in [2i64, 3, 4, 5] {
+            for n in [0i64, 1, 2, 3, -3, 255, I32_MAX] {
+                v.push(single(TestR { kind: 2, al: 0, sty, ops: vec![n] }, 0, 1));
+                let it = Item::IfThen(TestR { kind: 2, al: 0, sty, ops: vec![n] }, vec![], 0);
+                let mut e = vec![];
+                enc_text(&[it, Item::Plain(1)], &mut e);
+                v.push(format!("cond {}", join(&e)));
+                for r in 0..3 {
+                    let it = Item::IfElse(TestR { kind: 3, al: 0, sty, ops: vec![1, r, n] }, vec![], 0, vec![Item::Plain(0)], 0);
+                    let mut e = vec![];
+                    enc_text(&[it, Item::Plain(1)], &mut e);
+                    v.push(format!("cond {}", join(&e)));
+                }
+            }
+            for n in [0i64, 1, 2, 5] {
+                let t = TestR { kind: 4, al: 0, sty, ops: vec![n] };
+                let it = Item::Case(t, vec![(vec![], 0), (vec![Item::Plain(0)], 0), (vec![], 0)], Some((0, vec![Item::Plain(1)])), 0);
+                let mut e = vec![];
+                enc_text(&[it, Item::Plain(2)], &mut e);
+                v.push(format!("cond {}", join(&e)));
+            }
+        }
         // C07-g witness: input ends while \ifcase 2147483647 is skipping
         v.push("tok 2 4 0 0 2147483647 1 0".to_string());
         // \expandafter: the texbook permutations and the repository's own alias example
@@ -2005,17 +2195,18 @@ impl Property for C07 {
         let mut r = rng.fork();
         for i in 0..n_cond {
             let depth = (i % 7) as u32;
-            let mut g = Gen { rng: &mut r, budget: 60 + 40 * depth as i64, scoped: false };
+            let mut g = Gen { rng: &mut r, budget: 60 + 40 * depth as i64, scoped: false, unterminated: i % 4 == 3 };
             let items = g.text(depth, true);
             let mut e = vec![];
             enc_text(&items, &mut e);
-            v.push(format!("{} {}", if r.chance(1, 2) { "condR" } else { "cond" }, join(&e)));
+            let wrap = if r.chance(1, 3) { format!("+{}", 1 + r.below(999)) } else { String::new() };
+            v.push(format!("{}{wrap} {}", if r.chance(1, 2) { "condR" } else { "cond" }, join(&e)));
         }
         // condS: the same trees with scoped alias histories
         let mut r = rng.fork();
         for i in 0..n_cond / 2 {
             let depth = (i % 7) as u32;
-            let mut g = Gen { rng: &mut r, budget: 60 + 40 * depth as i64, scoped: true };
+            let mut g = Gen { rng: &mut r, budget: 60 + 40 * depth as i64, scoped: true, unterminated: i % 4 == 3 };
             let mut items = g.scoped_prefix();
             items.extend(g.text(depth, true));
             let open = items.iter().fold(0i64, |o, it| match it {
@@ -2028,13 +2219,14 @@ impl Property for C07 {
             }
             let mut e = vec![];
             enc_text(&items, &mut e);
-            v.push(format!("condS {}", join(&e)));
+            let wrap = if r.chance(1, 3) { format!("+{}", 1 + r.below(999)) } else { String::new() };
+            v.push(format!("condS{wrap} {}", join(&e)));
         }
         // tok: mutated trees
         let mut r = rng.fork();
         for _ in 0..n_tok {
             let depth = r.below(4) as u32;
-            let mut g = Gen { rng: &mut r, budget: 25, scoped: false };
+            let mut g = Gen { rng: &mut r, budget: 25, scoped: false, unterminated: false };
             let items = g.text(depth, true);
             let mut fl = vec![];
             flatten(&items, &mut fl);
@@ -2078,6 +2270,13 @@ impl Property for C07 {
     fn run_case(&mut self, case: &str, drv: &mut Driver) -> CaseOutcome {
         let mut out = CaseOutcome::default();
         let (cmd, rest) = case.split_once(' ').unwrap_or((case, ""));
+        // `cond+17 …`: the program is partly moved into macros (see `wrap_in_macros`)
+        let (cmd, wrap) = match cmd.split_once('+') {
+            Some((c, w)) => (c, w.parse::<u64>().unwrap_or(0)),
+            None => (cmd, 0),
+        };
+        WRAP.with(|w| w.set(wrap));
+        WRAP_TAGS.with(|t| t.borrow_mut().clear());
         match cmd {
             "cond" | "condR" => self.run_cond(cmd == "condR", false, &parse_i64s(rest), drv, &mut out),
             "condS" => self.run_cond(false, true, &parse_i64s(rest), drv, &mut out),
@@ -2095,19 +2294,27 @@ impl Property for C07 {
             }
             _ => panic!("bad case {case}"),
         }
+        WRAP.with(|w| w.set(0));
+        for t in WRAP_TAGS.with(|t| std::mem::take(&mut *t.borrow_mut())) {
+            out.tag(t);
+        }
         out
     }
 
     fn shrink(&self, case: &str) -> Vec<String> {
-        let (cmd, rest) = case.split_once(' ').unwrap_or((case, ""));
+        let (cmd_full, rest) = case.split_once(' ').unwrap_or((case, ""));
+        let cmd = cmd_full.split_once('+').map(|(c, _)| c).unwrap_or(cmd_full);
         let mut c = vec![];
         match cmd {
             "cond" | "condR" | "condS" => {
+                if cmd_full != cmd {
+                    c.push(format!("{cmd} {rest}")); // without the macro wrapping
+                }
                 let items = dec_text(&mut Cur(&parse_i64s(rest)));
                 for t in shrink_items(&items) {
                     let mut e = vec![];
                     enc_text(&t, &mut e);
-                    c.push(format!("{cmd} {}", join(&e)));
+                    c.push(format!("{cmd_full} {}", join(&e)));
                 }
                 if cmd == "condR" {
                     c.push(format!("cond {rest}"));
